@@ -1,7 +1,10 @@
 package vh
 
 // Rng: splitmix64; every random choice of a run derives from one seed.
-type Rng struct{ s uint64 }
+type Rng struct {
+	s    uint64
+	side uint64 // number of Side streams derived so far (does not influence the main stream)
+}
 
 // The seed is hashed first: with s = seed*gamma + c, consecutive seeds would
 // yield the same output stream shifted by one draw (the state advances by
@@ -50,6 +53,16 @@ func (r *Rng) Range(lo, hi int) int { return lo + r.Intn(hi-lo+1) }
 
 // Fork derives an independent stream (for per-case reproducibility).
 func (r *Rng) Fork() *Rng { return &Rng{s: r.U64()} }
+
+// Side derives a stream from the current state WITHOUT advancing it: choices added to a generator
+// through Side leave every other draw of the run (and so every case an existing seed produces) unchanged.
+// Successive calls give different streams even when the main stream has not moved in between.
+func (r *Rng) Side() *Rng {
+	r.side++
+	q := &Rng{s: r.s ^ 0xA24BAED4963EE407 ^ (r.side * 0x9FB21C651E98DF25)}
+	q.s = q.U64()
+	return q
+}
 
 // PickS picks one of the given strings.
 func (r *Rng) PickS(xs ...string) string { return xs[r.Intn(len(xs))] }
